@@ -2,6 +2,7 @@
 
 mod checks;
 mod driver;
+mod faults;
 mod model;
 mod prng;
 mod sched;
